@@ -127,6 +127,20 @@ def clip_sites(roots):
     return out
 
 
+def clipped(root):
+    """root with every exp(z) replaced by exp(min(z, 20)): the behaviour recorded with known finding F15
+    (save_exp = exp clipped at 20 applied to the published expression)."""
+    memo = {}
+    for n in sym.topo([root]):
+        kids = [memo[c.id] for c in sym.children(n)]
+        if n.op == "uf" and n.args[0] == "exp":
+            z = kids[0]
+            memo[n.id] = sym.uf("exp", sym.ite(sym.lt(C(20), z), C(20), z))
+        else:
+            memo[n.id] = sym.rebuild(n, kids)
+    return memo[root.id]
+
+
 def float_eval(name, expr, model, renamed=None):
     """float64 value of the real implementation's expression and of the reference (math.exp)"""
     import jax
@@ -193,6 +207,18 @@ def run_instance(inst):
         a, b = impl[expr], ref[expr]
         clips = clip_sites([a])
         active = [sym.lt(lim, arg) for arg, lim in clips]
+        recorded = None
+        if active:
+            # is the implementation, clip included, exactly save_exp applied to the published expression?
+            bc = clipped(b)
+            if bc is a:
+                recorded = True
+                res["counters"]["recorded_structural"] = res["counters"].get("recorded_structural", 0) + 1
+            else:
+                qp = smt.Query(f"C04/{name}/{expr}/recorded"); dom(qp); qp.add(sym.ne(a, bc))
+                rp_ = qp.check(timeout=timeout)
+                res["counters"][f"q_recorded_{rp_.status}"] = res["counters"].get(f"q_recorded_{rp_.status}", 0) + 1
+                recorded = rp_.status == "unsat"
         for regime in ("clip_inactive", "clip_active"):
             if regime == "clip_active" and not active:
                 continue
@@ -217,10 +243,9 @@ def run_instance(inst):
                 fi, fr = float_eval(name, expr, r.model)
                 if (not math.isfinite(fi)) or abs(fi - fr) > 1e-6 * (1 + abs(fr)):
                     viol("kinetics", f"{expr} differs from the published expression at v={r.model.get('v')}: implementation {fi:.9g}, reference {fr:.9g}",
-                         {"expr": expr, "clip_active": regime == "clip_active"}, {"expr": expr, "model": {k: x for k, x in r.model.items() if k[0] in "vps"}})
+                         {"expr": expr, "clip_active": regime == "clip_active", "recorded_formula": bool(recorded)}, {"expr": expr, "model": {k: x for k, x in r.model.items() if k[0] in "vps"}})
                     continue
-                res["inconclusive"].append({"instance": inst, "query": f"{expr}@{regime}", "reason": "model not reproduced in float64"})
-            else:
+            if True:
                 found = False
                 if regime == "clip_active":
                     # the tolerance query needs magnitudes of exp the axioms do not pin down: walk the clip-active
@@ -238,11 +263,11 @@ def run_instance(inst):
                             fi, fr = float_eval(name, expr, rw.model)
                             if (not math.isfinite(fi)) or abs(fi - fr) > 1e-6 * (1 + abs(fr)):
                                 viol("kinetics", f"{expr} differs from the published expression where save_exp clips, at v={rw.model.get('v')}: implementation {fi:.9g}, reference {fr:.9g}",
-                                     {"expr": expr, "clip_active": True}, {"expr": expr, "model": {k: x for k, x in rw.model.items() if k[0] in "vps"}})
+                                     {"expr": expr, "clip_active": True, "recorded_formula": bool(recorded)}, {"expr": expr, "model": {k: x for k, x in rw.model.items() if k[0] in "vps"}})
                                 found = True
                                 break
                 if not found:
-                    res["inconclusive"].append({"instance": inst, "query": f"{expr}@{regime}", "reason": r.status})
+                    res["inconclusive"].append({"instance": inst, "query": f"{expr}@{regime}", "reason": "model not reproduced in float64" if r.has_witness else r.status})
         # sensitivity twin: a 1% wrong coefficient must be refutable
         q = smt.Query(f"C04/{name}/{expr}/twin"); dom(q)
         q.add(sym.ne(a, sym.mul(C("101/100"), b)))
